@@ -66,13 +66,22 @@ struct RandSystem {
     // reloc (optional): rigid transform applied to every Ground-attached inboard frame (relocates the whole model)
     void build(Rng& r, int nb, int shape, int onlyType = -1, const Transform* reloc = 0, int forceEuler = -1) {
         euler = r.I(0, 1) == 1; if (forceEuler >= 0) euler = forceEuler == 1;
+        std::vector<bool> leafOnly(nb + 1, false);     // by MobilizedBodyIndex: bodies that must stay childless
         for (int i = 0; i < nb; ++i) {
             int p = (shape == 0) ? i : (shape == 1 ? (i == 0 ? 0 : 1) : r.I(0, i));   // parent MobilizedBodyIndex (0 = Ground)
             if (shape == 1 && i == 0) p = 0;
-            MobilizedBody& parent = matter.updMobilizedBody(MobilizedBodyIndex(p));
+            if (leafOnly[p]) p = 0;
             int ty = onlyType >= 0 ? onlyType : r.I(0, NMOBTYPES - 1); bool rev = r.I(0, 3) == 0;
             Body::Rigid body(randomMassProps(r));
             Transform xpf = r.xf(); Transform xbm = r.xf();
+            // special frame cases: identity inboard/outboard frames and translation-only frames select simbody's
+            // specialised node classes (e.g. a childless Translation on Ground with identity frames is RBNodeLoneParticle)
+            // (The lone-particle node itself -- childless Translation on Ground with identity frames -- keeps different
+            // internal temporaries and is generated only by the dedicated systems of harness/C02_probe.cpp.)
+            int special = (onlyType >= 0 || reloc) ? 9 : r.I(0, 9);
+            if (special <= 1 && !(ty == 10 && p == 0)) { xpf = Transform(); xbm = Transform(); }
+            else if (special <= 3) { xpf = Transform(xpf.p()); xbm = Transform(xbm.p()); }
+            MobilizedBody& parent = matter.updMobilizedBody(MobilizedBodyIndex(p));
             if (reloc && p == 0) xpf = (*reloc) * xpf;
             addMobod(ty, parent, xpf, body, xbm, rev);
             types.push_back(ty); revs.push_back(rev);
